@@ -1,7 +1,7 @@
-\* quick: every ledger of <= 2 postings (pool of 14) x 198 shapes; every directive list of <= 2 (15 directives) x 14 filters
+\* quick: every ledger of <= 2 postings (pool of 10) x 198 shapes; every directive list of <= 2 (15 directives) x 14 filters
 CONSTANTS
   Headers <- HeadersDef
-  Pool <- Pool14
+  Pool <- Pool10
   MaxPostings = 2
   Shapes <- ShapesDef
   DirPool <- DirPoolAll
